@@ -93,14 +93,11 @@ theorem divSwapped_eq (a : Rec R) (c : R) (w : World R) :
     a.divSwapped c w = a.unary (fun x => Division.function c x) (fun x => Division.dy c x) w := by
   unfold Rec.divSwapped Rec.unary; cases a.history <;> rfl
 
-/-- a record is negated as `0 − x` (record_operations.rs:754), a container as `−x` with the
-    weight `−1` (functions.rs:147): the same over a ring -/
+/-- a record is negated as `−x` with the weight `−1` (record_operations.rs:754, since G-15), like
+    a container (functions.rs:147) -/
 theorem neg_eq (a : Rec R) (w : World R) :
     a.neg w = a.unary (fun x => -x) (fun _ => -1) w := by
-  unfold Rec.neg
-  cases hah : a.history with
-  | none => simp [Rec.unary, hah]
-  | some h' => simp [subSwapped_eq, Rec.unary, hah, Subtraction.function, Subtraction.dy]
+  unfold Rec.neg Rec.unary; cases a.history <;> rfl
 
 theorem sin_eq (a : Rec R) (w : World R) : a.sin w = a.unary Sine.function Sine.dx w := by
   unfold Rec.sin Rec.unary; cases a.history <;> rfl
